@@ -413,6 +413,11 @@ class Folder:
             if not self.truth(self.expr(s.test), s.test):
                 raise Raised("AssertionError", s)
             return
+        if isinstance(s, ast.With) and all(i.optional_vars is None and isinstance(i.context_expr, ast.Call) and ast.unparse(i.context_expr.func) == "warnings.catch_warnings"
+                                           for i in s.items):
+            # `with warnings.catch_warnings():` changes which warnings are shown, not what the body computes; calls on the warnings module in it are skipped
+            self.block([b for b in s.body if not (isinstance(b, ast.Expr) and isinstance(b.value, ast.Call) and ast.unparse(b.value.func).startswith("warnings."))])
+            return
         raise Undecidable(f"statement {type(s).__name__} at line {s.lineno}")
 
     def assign(self, t, v):
